@@ -182,6 +182,10 @@ Lemma finding_22_status : finding_status 22 wit_finding_22.
 Proof. apply finding_status_by_check. vm_compute. reflexivity. Qed.
 Lemma finding_23_status : finding_status 23 wit_finding_23.
 Proof. apply finding_status_by_check. vm_compute. reflexivity. Qed.
+Lemma finding_24_status : finding_status 24 wit_finding_24.
+Proof. apply finding_status_by_check. vm_compute. reflexivity. Qed.
+Lemma finding_25_status : finding_status 25 wit_finding_25.
+Proof. apply finding_status_by_check. vm_compute. reflexivity. Qed.
 
 (* ---- non-vacuity: the documented channel IS reached, inside the guard, in both modes ----------------- *)
 Definition channel_reached (x : bool) : Prop :=
